@@ -236,6 +236,42 @@ Definition leaf_sql := leaf_sql_g range_sql.
 Definition compile := compile_g range_sql.
 Definition compile_old := compile_g range_sql_old.
 
+(* ------------------------------------------------------------------ constraint summary *)
+(* queries/predicate_constraints_summary.py _DataIdExtractionVisitor: the data-ID values "identical in all result rows",
+   i.e. `dimension = literal` leaves that are not OR'd with anything (a one-leaf group of Predicate.operands), either
+   positive `==` or an inverted `!=`.  DirectQueryDriver._resolve_dataset_search uses them to drop the collections of a
+   dataset search whose summary lacks the governor value.  iskey = the column is a dimension key (fields are ignored).
+   inv_eq = true is the unsound variant that also accepts an inverted `==` (seeded change C05a). *)
+Definition opt_list {A} (x : option A) : list A := match x with Some a => [a] | None => [] end.
+Definition eq_constraint (inv_eq : bool) (iskey : col -> bool) (inverted : bool) (l : leaf) : option (col * value) :=
+  match l with
+  | LCmp o a b =>
+      let is_eq := if inverted then (match o with CNe => true | CEq => inv_eq | _ => false end)
+                   else (match o with CEq => true | _ => false end) in
+      if is_eq then
+        match a, b with
+        | ECol c _, ELit v => if iskey c then Some (c, v) else None
+        | ELit v, ECol c _ => if iskey c then Some (c, v) else None
+        | _, _ => None
+        end
+      else None
+  | _ => None
+  end.
+Definition summary_g (inv_eq : bool) (iskey : col -> bool) (tbl : list leaf) (p : cnf) : list (col * value) :=
+  flat_map (fun g => match g with
+                     | [Pos a] => opt_list (eq_constraint inv_eq iskey false (nth (N.to_nat a) tbl dflt_leaf))
+                     | [Neg a] => opt_list (eq_constraint inv_eq iskey true (nth (N.to_nat a) tbl dflt_leaf))
+                     | _ => []
+                     end) p.
+Definition summary := summary_g false.
+Definition summary_bad := summary_g true.
+Definition where_summary_g (inv_eq : bool) (iskey : col -> bool) (e : expr) : list (col * value) :=
+  match conv e with
+  | Some f => let '(fm, tbl) := number f [] in summary_g inv_eq iskey tbl (py_build fm)
+  | None => []
+  end.
+Definition where_summary := where_summary_g false.
+
 (* WHERE keeps a row iff the expression is true *)
 Definition keeps (rho : env) (q : sql) : bool := tri_is_true (tri_of_nv (seval rho q)).
 Definition select {R} (envof : R -> env) (q : sql) (rows : list R) : list R := filter (fun r => keeps (envof r) q) rows.
